@@ -119,6 +119,16 @@ def run(ctx):
     # ---- fault-free leg -----------------------------------------------------------------------------
     level = ch.pick(ZSTD_LEVELS, "zstd")
     cfg = EnvelopeConfig(format=EnvelopeFormat.JSON, zstd=level)
+    if ch.coin(1, 3, "failed-encode-first"):
+        # fault, then workload: an encoding that fails (illegal compression level; a payload format that needs the absent
+        # native module) is caught by the caller; the next, valid encoding must not be affected
+        bad_cfg = EnvelopeConfig(format=EnvelopeFormat.JSON, zstd=23) if ch.coin(1, 2, "bad-level") else EnvelopeConfig(format=EnvelopeFormat.MODULE, zstd=None)
+        try:
+            pkg.to_bytes(bad_cfg)
+            ctx.probe("failing_encode_returned")
+        except Exception as e:  # noqa: BLE001
+            ctx.ev("writer", "to_bytes(failing config)", repr(bad_cfg), type(e).__name__)
+            ctx.fault("failed_encode_before_the_valid_one")
     default_cfg = level is None and ch.coin(1, 3, "default-config")
     ctx.steps += 1
     try:
@@ -128,6 +138,18 @@ def run(ctx):
         return
     ctx.ev("writer", "to_bytes", {"zstd": level, "default": default_cfg}, len(data))
     want_data = want  # what `data` encodes (the package may be mutated and re-encoded below)
+    # headers are values: one parsed earlier still describes its own envelope after other envelopes have been handled
+    from hugr.envelope import EnvelopeHeader
+    ctx.checked("header-objects")
+    other_level = None if level is not None else 3
+    data_other = pkg.to_bytes(EnvelopeConfig(format=EnvelopeFormat.JSON, zstd=other_level))
+    h1 = EnvelopeHeader.from_bytes(data)
+    h2 = EnvelopeHeader.from_bytes(data_other)
+    decode(data_other)
+    for hd, dd, lv in ((h1, data, level), (h2, data_other, other_level)):
+        if hd.zstd != (lv is not None) or hd.to_bytes() != dd[:10] or hd.format != EnvelopeFormat.JSON:
+            ctx.violate("header", "parsed-header-object-changed-after-handling-another-envelope",
+                        {"zstd_flag": hd.zstd, "expected": lv is not None, "bytes": hd.to_bytes().hex(), "envelope": dd[:10].hex()})
     ctx.checked("header")
     if data[:8] != MAGIC:
         ctx.violate("header", "magic", {"got": repr(data[:8])})
